@@ -238,6 +238,83 @@ Definition mpending (s : mstate) (t : tid) : list (stream * msg) :=
   end.
 
 (* ------------------------------------------------------------------------------------------------------------ *)
+(* Part 2b.  WHO the members of a composite are.  NewCombinedLoggers / NewMultipleLoggers (multiple_logger.go:122-155)
+   and NewMultipleWritersWithSource / AddWriters (writer.go:30-36, 74-78) take a variadic list — i.e. possibly a slice
+   OWNED BY THE CALLER, with spare capacity — and hand it to Append / AddWriters:
+        c.loggers = append(c.loggers, l...)          (c.loggers nil at construction: a FRESH array, a copy)
+   so the composite never shares a backing array with its caller or with another composite built from the same
+   slice.  Go slices are modelled over a store of arrays: (array, len, cap); append writes in place while len < cap
+   and moves to a fresh array otherwise.  [copies] = the constructor copies its argument (the code as it is); with
+   [copies = false] it would keep the caller's slice (refuted below).  Sequential: no concurrency is needed. *)
+Definition store := nat -> nat -> nat.                       (* array -> index -> member identity *)
+Record slice := mkSlice { s_arr : nat; s_len : nat; s_cap : nat }.
+Definition elems (st : store) (s : slice) : list nat := map (st (s_arr s)) (seq 0 (s_len s)).
+Definition wr_store (st : store) (a i v : nat) : store :=
+  fun a' i' => if Nat.eqb a' a && Nat.eqb i' i then v else st a' i'.
+(* Go's append of one element; returns the new store, the next fresh array and the resulting slice *)
+Definition go_append (st : store) (next : nat) (s : slice) (x : nat) : store * nat * slice :=
+  if Nat.ltb (s_len s) (s_cap s)
+  then (wr_store st (s_arr s) (s_len s) x, next, mkSlice (s_arr s) (S (s_len s)) (s_cap s))
+  else ((fun a i => if Nat.eqb a next then (if Nat.eqb i (s_len s) then x else st (s_arr s) i) else st a i),
+        S next, mkSlice next (S (s_len s)) (S (2 * s_cap s))).
+(* append(nil, l...): a fresh array holding a copy *)
+Definition copy_slice (st : store) (next : nat) (s : slice) : store * nat * slice :=
+  ((fun a i => if Nat.eqb a next then st (s_arr s) i else st a i), S next, mkSlice next (s_len s) (s_len s)).
+
+Inductive aop :=
+| ANew (c : nat)                 (* composite c := New...Loggers(backing...) *)
+| AAppend (c id : nat)           (* composite c .Append(id) *)
+| ACallerSet (i id : nat)        (* the caller: backing[i] = id *)
+| ACallerAppend (id : nat)       (* the caller: backing = append(backing, id) *)
+| ALog (c m : nat).              (* composite c .Log(m): every current member receives m *)
+
+Record astate := mkA {
+  a_st     : store;
+  a_next   : nat;
+  a_caller : slice;
+  a_comp   : nat -> option slice;
+  a_own    : nat -> list nat;             (* ghost: members given at construction ++ the composite's own Appends *)
+  a_recv   : list (nat * nat * nat);      (* (member, composite, message) in delivery order *)
+  a_exp    : list (nat * nat * nat)       (* ghost: what the property demands *)
+}.
+
+Definition astep (copies : bool) (s : astate) (o : aop) : astate :=
+  match o with
+  | ANew c =>
+      let own := upd (a_own s) c (elems (a_st s) (a_caller s)) in
+      if copies
+      then let '(st', n', sl) := copy_slice (a_st s) (a_next s) (a_caller s) in
+           mkA st' n' (a_caller s) (upd (a_comp s) c (Some sl)) own (a_recv s) (a_exp s)
+      else mkA (a_st s) (a_next s) (a_caller s) (upd (a_comp s) c (Some (a_caller s))) own (a_recv s) (a_exp s)
+  | AAppend c id =>
+      match a_comp s c with
+      | None => s
+      | Some sl => let '(st', n', sl') := go_append (a_st s) (a_next s) sl id in
+                   mkA st' n' (a_caller s) (upd (a_comp s) c (Some sl')) (upd (a_own s) c (a_own s c ++ [id]))
+                       (a_recv s) (a_exp s)
+      end
+  | ACallerSet i id =>
+      if Nat.ltb i (s_len (a_caller s))
+      then mkA (wr_store (a_st s) (s_arr (a_caller s)) i id) (a_next s) (a_caller s) (a_comp s) (a_own s)
+               (a_recv s) (a_exp s)
+      else s
+  | ACallerAppend id =>
+      let '(st', n', sl') := go_append (a_st s) (a_next s) (a_caller s) id in
+      mkA st' n' sl' (a_comp s) (a_own s) (a_recv s) (a_exp s)
+  | ALog c m =>
+      match a_comp s c with
+      | None => s
+      | Some sl => mkA (a_st s) (a_next s) (a_caller s) (a_comp s) (a_own s)
+                       (a_recv s ++ map (fun id => (id, c, m)) (elems (a_st s) sl))
+                       (a_exp s ++ map (fun id => (id, c, m)) (a_own s c))
+      end
+  end.
+Definition arun (copies : bool) (s : astate) (script : list aop) : astate := fold_left (astep copies) script s.
+(* the caller's slice: array 0 holding [init], capacity cap *)
+Definition ainit (init : list nat) (cap : nat) : astate :=
+  mkA (fun a i => if Nat.eqb a 0 then nth i init 0 else 0) 1 (mkSlice 0 (List.length init) cap)
+      (fun _ => None) (fun _ => []) [] [].
+
 (* Part 3.  diode.Writer over diodes.ManyToOne (writer.go:110-121 -> zerolog/diode).  Set (producer side): take the
    next sequence number, store the bucket in slot seq mod n — overwriting whatever is there.  TryNext (the single
    reader): swap the slot at readIndex mod n with nil; nothing -> no data; seq < readIndex -> stale, dropped, no data;
@@ -416,7 +493,10 @@ Inductive case :=
 (* scripted ring run: size, script, what the reader took (in order) and the alerts (in order) *)
 | CRing (n : nat) (script : list sev) (taken : list msg) (alerts : list nat)
 (* concurrent ring run: size, what each producer sent, what reached the slow writer, the sum of the alerts *)
-| CRingStress (n : nat) (sent : list (list msg)) (deliv : list msg) (reported : nat).
+| CRingStress (n : nat) (sent : list (list msg)) (deliv : list msg) (reported : nat)
+(* membership script (sequential): the caller's slice (members, capacity), the script, and for every logger that
+   exists in the run — members and non-members — the (composite, message) pairs it received, in order *)
+| CAlias (init : list nat) (cap : nat) (script : list aop) (obs : list (nat * list (nat * nat))).
 
 Definition steps_per_message : nat := 7.
 
@@ -455,6 +535,13 @@ Definition check_case (c : case) : bool :=
   | CRing n script taken alerts =>
       let g := fst (srun n script) in
       list_eqb zlist_eqb (rdeliv g) taken && list_eqb Nat.eqb (ralerts g) alerts
+  | CAlias init cap script obs =>
+      let s := arun true (ainit init cap) script in
+      forallb (fun io => let (id, l) := (io : nat * list (nat * nat)) in
+                         list_eqb (fun a b => Nat.eqb (fst a) (fst b) && Nat.eqb (snd a) (snd b))
+                                  (map (fun e => (snd (fst e), snd e))
+                                       (filter (fun e => Nat.eqb (fst (fst e)) id) (a_recv s))) l)
+              obs
   | CRingStress n sent deliv reported =>
       is_submerge deliv sent &&
       Nat.leb (List.length (concat sent) - List.length deliv) reported
